@@ -268,7 +268,23 @@ def interegular_to_wfsa(pattern, charset="core", name=lambda x: x):
         m = WFSA(Float)
         m.add_I(name(fsm.initial), 1)
 
-        rejection_states = [e for e in fsm.states if not fsm.islive(e)]
+        # a state is live if it reaches a final state through arcs that survive the
+        # expansion against the charset (fsm.islive alone ignores the charset)
+        live = set(fsm.finals)
+        while True:
+            more = {
+                i
+                for i in fsm.states
+                if i not in live
+                and any(
+                    j in live and any(len(A) == 1 for A in expand_alphabet(a))
+                    for a, j in fsm.map[i].items()
+                )
+            }
+            if not more:
+                break
+            live |= more
+        rejection_states = [e for e in fsm.states if e not in live]
         for i in fsm.states:
             # determine this state's fan out
             K = 0
